@@ -121,7 +121,8 @@ func (fr *Frame) libModel(fn *ssa.Function, full string, args []Val, st *State, 
 			return done(tv(wrapInt(types.Typ[types.Int64], bv(0))))
 		case "Uint64":
 			nonNil(0)
-			return done(tv(wrapInt(types.Typ[types.Uint64], bv(0))))
+			// low 64 bits of |x| (what math/big returns also for values that do not fit)
+			return done(tv(wrapInt(types.Typ[types.Uint64], app(SInt, "absI", bv(0)))))
 		case "IsInt64":
 			nonNil(0)
 			lo, hi, _ := intRange(types.Typ[types.Int64])
@@ -147,7 +148,7 @@ func (fr *Frame) libModel(fn *ssa.Function, full string, args []Val, st *State, 
 			a := app(SInt, "absI", bv(0))
 			c.heapSet(st, en, tStore(c.heapGet(st, en), r, app(ArrSort(SInt, SInt), "big.bytes", a)))
 			ln := app(SInt, "big.byteslen", a)
-			c.assumeG(g, mk(SBool, fmt.Sprintf("(and (>= %s 0) (= (= %s 0) (= %s 0)))", ln.S, ln.S, a.S)))
+			c.assumeG(g, mk(SBool, fmt.Sprintf("(and (>= %s 0) (= (= %s 0) (= %s 0)) (= (<= %s 32) (< %s %s)) (= (<= %s 8) (< %s %s)))", ln.S, ln.S, a.S, ln.S, a.S, pow2(256).String(), ln.S, a.S, pow2(64).String())))
 			res := mk(SSlice, fmt.Sprintf("(mk-slice %s 0 %s)", r.S, ln.S))
 			// content-level codec facts (A-CODEC): bytes(x) is big.enc(|x|), decodable by big.dec
 			c.declareFun("big.enc", []Sort{SInt}, SStr)
@@ -178,8 +179,13 @@ func (fr *Frame) libModel(fn *ssa.Function, full string, args []Val, st *State, 
 		case "BitLen":
 			nonNil(0)
 			c.declareFun("big.bitlen", []Sort{SInt}, SInt)
-			r := app(SInt, "big.bitlen", app(SInt, "absI", bv(0)))
+			av := app(SInt, "absI", bv(0))
+			r := app(SInt, "big.bitlen", av)
 			c.assumeG(g, tGe(r, intLit(0)))
+			// exact thresholds that occur in practice: bitlen <= k  <=>  |x| < 2^k
+			for _, k := range []int{0, 8, 32, 64, 256} {
+				c.assumeG(g, mk(SBool, fmt.Sprintf("(= (<= %s %d) (< %s %s))", r.S, k, av.S, pow2(k).String())))
+			}
 			return done(tv(r))
 		case "Exp":
 			nonNil(0)
